@@ -71,7 +71,7 @@ def energy(rng, shape, nan_rate=0.1, zero_rate=0.15, positive=False):
     return e
 
 
-def space_time(rng, layout, bshape, depth_mode="mixed"):
+def space_time(rng, layout, bshape, depth_mode="mixed", transpose_aux=False):
     """data variables / coords for time, latitude, longitude, depth."""
     import xarray
     from datetime import datetime, timezone, timedelta
@@ -108,7 +108,10 @@ def space_time(rng, layout, bshape, depth_mode="mixed"):
         coords["time"] = t0 + np.arange(nt) * np.timedelta64(3600, "s")
         coords["latitude"] = 11.0 + 0.5 * np.arange(nl)
         out["longitude"] = (("time", "latitude"), 10.0 + 0.01 * np.arange(nt * nl).reshape(nt, nl))
-        out["depth"] = (("time", "latitude"), depth_vals(nt * nl).reshape(nt, nl))
+        if transpose_aux:
+            out["depth"] = (("latitude", "time"), depth_vals(nt * nl).reshape(nl, nt))
+        else:
+            out["depth"] = (("time", "latitude"), depth_vals(nt * nl).reshape(nt, nl))
         dims = ["time", "latitude"]
     else:
         nn = bshape[0]
@@ -151,7 +154,8 @@ def make_1d(rng, layout=None, f=None, e=None, moments=None, depth_mode="mixed", 
     return FrequencySpectrum(ds), dict(layout=layout, f=f, e=e, moments=moments, bshape=bshape)
 
 
-def make_2d(rng, layout=None, f=None, d=None, E=None, depth_mode="mixed", nan_rate=0.05, uniform=None):
+def make_2d(rng, layout=None, f=None, d=None, E=None, depth_mode="mixed", nan_rate=0.05, uniform=None,
+            transpose_aux=False):
     import xarray
     from ocean_science_utilities.wavespectra.spectrum import FrequencyDirectionSpectrum
     layout = layout or rng.choice(LAYOUTS)
@@ -163,7 +167,7 @@ def make_2d(rng, layout=None, f=None, d=None, E=None, depth_mode="mixed", nan_ra
     bshape = batch_shape(rng, layout) if E is None else E.shape[:-2]
     if E is None:
         E = energy(rng, bshape + (len(f), len(d)), nan_rate=nan_rate)
-    dims, data, coords = space_time(rng, layout, bshape, depth_mode)
+    dims, data, coords = space_time(rng, layout, bshape, depth_mode, transpose_aux)
     sdims = tuple(dims) + ("frequency", "direction")
     data["variance_density"] = (sdims, E)
     coords["frequency"] = f
